@@ -69,7 +69,7 @@ def gen_sign_step(rng, sid, knames, full_options=False):
     if kind in ('text', 'cleartext'):
         st['text'] = rng.choice(['', 'x', 'x\n', 'line one\nline two\n', 'a\r\nb\r\n', '- dash\n-- more', 'From me\nto you',
                                  'ünï\ncödé ☃', 'tab\there', 'no newline at end', 'trailing \r\nblanks\t \r\nover crlf\r\n',
-                                 'mixed \nendings\t\r\nwith blanks \t\n', 'blank at end of text  '])
+                                 'mixed \nendings\t\r\nwith blanks \t\n', 'blank at end of text  ', 'pay 100? to bob', 'what? 价格 ?'])
     if kind == 'msg':
         st['nsigners'] = rng.choice([1, 1, 2, 3])
         st['compression'] = rng.choice([0, 1, 2, 3])
@@ -357,6 +357,8 @@ class SigWorld(object):
             return K.verify(cp(pgpy.PGPMessage.from_blob(s['armored'])))
         sig = cp(pgpy.PGPSignature.from_blob(art.sig))
         if s['t'] == 'doc':
+            if s.get('str_override') is not None:
+                return K.verify(s['str_override'], sig)
             return K.verify(s['data'].decode('utf-8') if s.get('as_str') else s['data'], sig)
         if s['t'] == 'none':
             return K.verify(None, sig)
